@@ -118,7 +118,7 @@ def EnvOk (cfg : Cfg) (env : IdleEnv) : Prop :=
   (cfg.f9Fixed = true ∨ env.chunkExt = false) ∧
   (cfg.allocBypassFixed = true ∨ env.errAllocFail = false) ∧
   (cfg.epollBypassFixed = true ∨ env.epollAdd ≠ some false) ∧
-  (cfg.f14Fixed = true ∨ env.errHdrFail1 = false)
+  ((cfg.f14Fixed = true ∧ cfg.f14ClearsAware = true) ∨ env.errHdrFail1 = false)
 
 theorem connectionReset_rel {σ} (c : Conn σ) (p : PSt) (reuse : Bool) (h : Rel c p)
     (hst : c.state = .fullReplySent) (hs : c.started = true) (hc : c.cleaned = false)
@@ -228,7 +228,9 @@ theorem transmitError_eq {σ} (cfg : Cfg) (env : IdleEnv) (c : Conn σ) (p : PSt
       by_cases h1 : env.errHdrFail1 = true
       · have hfix : cfg.f14Fixed = true := by
           rcases hok.2.2.2 with hh | hh <;> simp_all
-        simp only [h1, if_true, releaseEverything, hfix, notify] at heq
+        have hfix2 : cfg.f14ClearsAware = true := by
+          rcases hok.2.2.2 with hh | hh <;> simp_all
+        simp only [h1, if_true, releaseEverything, hfix, hfix2, notify] at heq
         by_cases h2 : env.errHdrFail2 = true
         · simp only [h2, if_true] at heq
           by_cases haw : c.clientAware = true
